@@ -135,12 +135,58 @@ the same commit time and become visible together. -/
 def execTxn (db : DB) (t : Nat) (parts : List (Nat × List Ent)) : DB :=
   parts.foldl (fun acc p => (writeFrom db p.1 t 0 p.2 (acc, [])).1) db
 
-/-! ## reads -/
-
 def insertBy (lt : α → α → Bool) (x : α) : List α → List α
   | [] => [x]
   | y :: ys => if lt x y then x :: y :: ys else y :: insertBy lt x ys
 def sortBy (lt : α → α → Bool) (l : List α) : List α := l.foldl (fun acc x => insertBy lt x acc) []
+
+/-! ## deduplicating compaction (internal/service/dataset/compact*.go), after the fix for D13 -/
+
+/-- the reference keys `processRefs` computes for a version (one `RefKey` stands for the outgoing
+and the incoming key). -/
+def refKeysOf (e : Ent) (ds t : Nat) : List RefKey := e.refs.map fun r => ⟨e.rid, t, r.1, r.2, e.deleted, ds⟩
+
+def targetsOf (e : Ent) (p : Nat) : List Nat := (e.refs.filter (·.1 == p)).map (·.2)
+
+/-- remove a duplicate version: its json key, its change log entry, its reference keys; re-point
+the latest pointer at the predecessor when the removed version was the latest. -/
+def dropVersion (db : DB) (ds : Nat) (k : VKey) (e : Ent) (prevKey : VKey) (isLatest : Bool) : DB :=
+  { db with versions := db.versions.filter (·.1 != k),
+            changes := db.changes.filter (·.2.2 != k),
+            latest := if isLatest then setAssoc (ds, k.rid) prevKey db.latest else db.latest,
+            refs := db.refs.filter fun r => !(refKeysOf e ds k.t).contains r }
+
+/-- the strategy's `eval` over the versions of one entity, oldest first, `prev` = comparison base. -/
+def compactFrom (ds : Nat) : DB → VKey × Ent → List (VKey × Ent) → DB
+  | db, _, [] => db
+  | db, prev, (k, e) :: rest =>
+    if e = prev.2 then
+      compactFrom ds (dropVersion db ds k e prev.1 rest.isEmpty) prev rest
+    else if e.deleted = prev.2.deleted then
+      -- references of a predicate that are identical to the previous version's and were written in
+      -- another batch: the newer keys are redundant
+      let preds := (e.refs.map (·.1)).eraseDups.filter fun p => targetsOf e p == targetsOf prev.2 p
+      let dead := (refKeysOf e ds k.t).filter fun r => preds.contains r.pred
+      let db' := if k.t ≠ prev.1.t then { db with refs := db.refs.filter fun r => !dead.contains r } else db
+      compactFrom ds db' (k, e) rest
+    else compactFrom ds db (k, e) rest
+
+def versionsOfEntity (db : DB) (ds rid : Nat) : List (VKey × Ent) :=
+  sortBy (fun a b => a.1.lt b.1) (db.versions.filter fun v => v.1.ds == ds && v.1.rid == rid)
+
+/-- `CompactionWorker.compact`: every entity of the dataset (by its latest pointer), oldest version first. -/
+def compact (db : DB) (ds : Nat) : DB :=
+  let rids := sortBy (fun a b => a < b) ((db.latest.filter (·.1.1 == ds)).map (·.1.2))
+  rids.foldl (fun db rid =>
+    match versionsOfEntity db ds rid with
+    | [] => db
+    | first :: rest => compactFrom ds db first rest) db
+
+/-- a legacy duplicate: a version written without the write-time equality check. -/
+def injectVersion (db : DB) (ds t : Nat) (e : Ent) : DB :=
+  appendVersion db ds t 0 e (db.stored ds e.rid) false
+
+/-! ## reads -/
 
 /-- latest-pointer keys of a dataset in iteration order (by rid), resolved to versions. -/
 def listAll (db : DB) (ds : Nat) : List (Nat × Ent) :=
